@@ -248,6 +248,9 @@ class MinAbsGoalProgrammingMixin(_GoalProgrammingMixinBase):
         self.__validate_goals(goals, is_path_goal=False)
         self.__validate_goals(path_goals, is_path_goal=True)
 
+        # Every call to optimize() starts afresh
+        self.__first_run = True
+
         # List for absolute minimization goals. These will be incrementally
         # filled only just before we need them to.
         self.__problem_constraints = [[] for ensemble_member in range(self.ensemble_size)]
